@@ -147,7 +147,7 @@ CHECKS["C02"] = _engine_check("C02", ["plain"], "fence, exact-fit objects", FENC
 CHECKS["C03"] = _engine_check("C03", ["plain", "noslack"], "dirty-dest terminator scan", FENCE_ASSUME)
 CHECKS["C04"] = _engine_check("C04", ["plain", "noslack"], "before/after images on failure", FENCE_ASSUME, modes=(0, 1))
 CHECKS["C05"] = _engine_check("C05", ["plain"], "counting probe handlers + constraint classifier", FENCE_ASSUME, modes=(0, 1), queries=True)
-CHECKS["C06"] = _engine_check("C06", ["plain", "noslack"], "differential against reference models", FENCE_ASSUME)
+CHECKS["C06"] = _engine_check("C06", ["plain", "noslack"], "differential against reference models", FENCE_ASSUME, modes=(0, 1))
 CHECKS["C07"] = _engine_check("C07", ["plain", "noslack"], "all relative placements inside one arena", FENCE_ASSUME, modes=(1,))
 CHECKS["C08"] = _engine_check("C08", ["plain", "noslack"], "slack scan after success", FENCE_ASSUME, modes=(0, 1))
 
